@@ -77,13 +77,32 @@ type Program struct {
 
 var corpus []Program
 
+// Heavy adds programs of a few hundred thousand gates to the corpus and raises the size limit of
+// a case accordingly (set by the thorough tier of C05 before the first case).
+var Heavy bool
+
 // Corpus returns the two-party programs of testsuite/lang and a few examples.
 func Corpus() []Program {
 	if corpus != nil {
 		return corpus
 	}
 	var files []string
-	for _, pat := range []string{"testsuite/lang/*.mpcl", "apps/garbled/examples/millionaire.mpcl", "apps/garbled/examples/add.mpcl", "apps/garbled/examples/and.mpcl", "apps/garbled/examples/sub.mpcl", "apps/garbled/examples/hamming.mpcl"} {
+	if only := os.Getenv("VERIF_CORPUS_ONLY"); only != "" {
+		// diagnostics (coverage attribution): the corpus is this one file and every case uses it
+		if b, err := os.ReadFile(filepath.Join(RepoDir, only)); err == nil {
+			corpus = []Program{{Name: only, Src: string(b)}}
+			return corpus
+		}
+	}
+	pats := []string{"testsuite/lang/*.mpcl", "apps/garbled/examples/millionaire.mpcl", "apps/garbled/examples/add.mpcl", "apps/garbled/examples/and.mpcl", "apps/garbled/examples/sub.mpcl", "apps/garbled/examples/hamming.mpcl",
+		// unsized ([]byte) and struct arguments, library packages (bytes, crypto/aes, crypto/sha1, chacha20)
+		"testsuite/bytes/*.mpcl", "testsuite/crypto/sha1.mpcl", "apps/garbled/examples/credit.mpcl", "apps/garbled/examples/div.mpcl", "apps/garbled/examples/key-import.mpcl",
+		"apps/garbled/examples/rps.mpcl", "apps/garbled/examples/aesblock2.mpcl", "apps/garbled/examples/aesctr.mpcl", "apps/garbled/examples/chacha20.mpcl"}
+	if Heavy {
+		// a few hundred thousand gates each: thorough tier only
+		pats = append(pats, "testsuite/crypto/sha256_block.mpcl", "testsuite/crypto/hmac_sha1.mpcl", "apps/garbled/examples/aesexpand.mpcl")
+	}
+	for _, pat := range pats {
 		m, _ := filepath.Glob(filepath.Join(RepoDir, pat))
 		files = append(files, m...)
 	}
@@ -230,6 +249,17 @@ func argString(t *rt.Tape, a circuit.IOArg) (string, bool) {
 		if a.Type.ElementType == nil || bits == 0 || bits%4 != 0 {
 			return "", false
 		}
+		h := rnd(bits).Text(16)
+		for len(h) < bits/4 {
+			h = "0" + h
+		}
+		return "0x" + h, true
+	case types.TSlice:
+		// an unsized argument: its length is that of the value passed (1..12 elements)
+		if a.Type.ElementType == nil || a.Type.ElementType.Bits == 0 || a.Type.ElementType.Bits%4 != 0 {
+			return "", false
+		}
+		bits = int(a.Type.ElementType.Bits) * (1 + t.Choose(rt.SGen, 12))
 		h := rnd(bits).Text(16)
 		for len(h) < bits/4 {
 			h = "0" + h
@@ -543,7 +573,12 @@ func RunReuse(t *rt.Tape, c, par, pre *Case, dir int, cut uint64, failedCompileF
 }
 
 func init() {
-	core.Register("C05", func(tier string) core.World { return &c05{tier: tier} })
+	core.Register("C05", func(tier string) core.World {
+		if tier == "thorough" {
+			Heavy = true
+		}
+		return &c05{tier: tier}
+	})
 }
 
 type c05 struct{ tier string }
@@ -568,15 +603,24 @@ func ioString(io circuit.IO) string {
 	return strings.Join(parts, ",")
 }
 
+// corpusProbe are the sizes used to learn the argument shapes of a corpus program: one per
+// unsized member (a struct argument may have several)
+var corpusProbe = [][]int{{128, 128, 128, 128, 128, 128, 128, 128}, {128, 128, 128, 128, 128, 128, 128, 128}}
+
 // DrawProgram draws a program: corpus or generated.
 func DrawProgram(t *rt.Tape) (Program, [][]int) {
+	if os.Getenv("VERIF_CORPUS_ONLY") != "" {
+		if c := Corpus(); len(c) == 1 {
+			return c[0], corpusProbe
+		}
+	}
 	if t.Choose(rt.SGen, 40) == 0 {
 		return NativeProgram, [][]int{{64}, {64}}
 	}
 	if t.Choose(rt.SGen, 4) == 0 {
 		c := Corpus()
 		if len(c) > 0 {
-			return c[t.Choose(rt.SGen, len(c))], [][]int{{64}, {64}}
+			return c[t.Choose(rt.SGen, len(c))], corpusProbe
 		}
 	}
 	src, probe := gen.MPCL(t)
@@ -608,12 +652,15 @@ func (w *c05) Run(t *rt.Tape, trace bool) *core.Result {
 	if c.Discard != "" {
 		res.Discard = true
 		res.Reach["discard: "+strings.SplitN(c.Discard, ":", 2)[0]]++
+		if os.Getenv("VERIF_CORPUS_ONLY") != "" {
+			res.Reach["discard-detail: "+c.Discard]++
+		}
 		return res
 	}
 	inBits := c.Circ.Inputs.Size()
-	if c.Circ.NumGates > 200000 {
+	if c.Circ.NumGates > 200000 && !(Heavy && c.Circ.NumGates <= 600000) {
 		res.Discard = true
-		res.Reach["discard: too large"]++
+		res.Reach[fmt.Sprintf("discard: too large (%d00000+ gates)", c.Circ.NumGates/100000)]++
 		return res
 	}
 	if small && (c.Circ.NumGates > 2000 || inBits > 600) {
